@@ -2,6 +2,7 @@
    case lines (numbers are hexadecimal, byte strings hex with "_" for the empty string):
      E <id> <env>          -> <id> enc <hex of enc_env>  wr <hex of fst (wr_env)> <0|1>
      D <id> <hexbytes>     -> <id> some <env> rest=<number of trailing bytes>   |   <id> none
+     X <id> <hexbytes>     -> <id> x <hex of enc_env (decoded value)> <number of trailing bytes>   |   <id> x none
    <env>    = <fs> <cmd> N  |  <fs> <cmd> S <fs> <cmd>
    <fs>     = -  |  path:secs:nanos:hash,...          <cmd> = -  |  cmd:dir:stdout,...
    Decoded values are printed with their entries sorted, so that the hash order of the real maps is irrelevant. *)
@@ -102,5 +103,10 @@ let run (cases : string) : unit =
           match dec_env (unhex hb) with
           | Some (e, rest) -> Printf.printf "%s some %s rest=%d\n" id (show_env e) (List.length rest)
           | None -> Printf.printf "%s none\n" id)
+      | [ "X"; id; hb ] -> (
+          (* re-encoding of the decoded value, for the cross-evaluation inside Coq (slices/incr.py coq_crosscheck) *)
+          match dec_env (unhex hb) with
+          | Some (e, rest) -> Printf.printf "%s x %s %d\n" id (hex (enc_env e)) (List.length rest)
+          | None -> Printf.printf "%s x none\n" id)
       | _ -> Printf.printf "? BADCASE\n")
     (read_lines cases)
